@@ -12,6 +12,8 @@
 (*   "xsmootherTake" ExtrapolatedSmootherTake - the same schedule;         *)
 (*   "smootherGive"  SmootherGive::smoothingForLoop - 16 loops, circle and  *)
 (*                   radial work overlapped by nowait in four epochs;      *)
+(*   "xsmootherGive" ExtrapolatedSmootherGive - an initialisation region    *)
+(*                   followed by the 16 loops of the give smoother;        *)
 (*   "residualTake"  ResidualTake::computeResidual - all circles and all   *)
 (*                   radial lines in one epoch (both loops nowait).        *)
 (* A region is a sequence of loops [nowait, tasks]; a task has an          *)
@@ -121,6 +123,21 @@ SmootherGiveRegion ==
      Lp(FALSE, {GRad(t, "White") : t \in Pass(2, s.nt, 4)}),
      Lp(FALSE, {GSolveR(t) : t \in Pass(1, s.nt, 2)}) >>
 
+(* ----------------------- extrapolated smoother (give) --------------------- *)
+\* ExtrapolatedSmootherGive::extrapolatedSmoothingForLoop: a first parallel region initialises temp on every node (from rhs, or
+\* from x on the coarse nodes: circle rows nowait, then radial rows; the end of the region is a barrier), then the 16 loops of
+\* the give smoother.  A line of the extrapolated smoother also reads x on ITSELF (its coarse nodes are moved to the right-hand side).
+XInitC(i) == [id |-> i, w |-> Tag("temp", Ring(i)), r |-> Tag("x", Ring(i))]
+XInitR(j) == [id |-> j, w |-> Tag("temp", RadialNodes(j)), r |-> Tag("x", RadialNodes(j))]
+XCirc(t, colour) == LET g == GCirc(t, colour) IN [g EXCEPT !.r = @ \cup Tag("x", Ring(s.nc - 1 - t))]
+XSmootherGiveRegion ==
+  << Lp(TRUE,  {XInitC(i) : i \in 0..(s.nc - 1)}),
+     Lp(FALSE, {XInitR(j) : j \in 0..(s.nt - 1)}) >> \o
+  [l \in 1..16 |-> LET g == SmootherGiveRegion[l]
+                   IN IF l \in {1, 2, 3} THEN Lp(g.nowait, {XCirc(t.id, "Black") : t \in g.tasks})
+                      ELSE IF l \in {5, 7, 9} THEN Lp(g.nowait, {XCirc(t.id, "White") : t \in g.tasks})
+                      ELSE g]
+
 \* ExtrapolatedSmootherTake::extrapolatedSmoothing has the schedule of SmootherTake::smoothing (it relaxes fewer unknowns per line)
 \* F21: without a circle section the innermost nodes belong to the radial lines and couple across the origin to the opposite
 \* line, which the 3-colouring does not separate; the repaired code sweeps sequentially then
@@ -128,6 +145,7 @@ Region == CASE s.op = "residualGive" -> IF "F21" \in FIXED /\ s.nc = 0 /\ ~s.dir
             [] s.op = "residualTake" -> ResidualTakeRegion
             [] s.op \in {"smootherTake", "xsmootherTake"} -> SmootherRegion
             [] s.op = "smootherGive" -> IF "F19" \in FIXED /\ s.nt % 4 # 0 THEN <<>> ELSE SmootherGiveRegion
+            [] s.op = "xsmootherGive" -> IF s.nt % 4 # 0 THEN <<>> ELSE XSmootherGiveRegion      \* the extrapolated smoothers assert ntheta % 4 = 0
 
 (* -------------------------------- properties ----------------------------- *)
 \* the region is evaluated ONCE per state (LET), its loops and the epoch numbering are passed on as values
@@ -145,6 +163,14 @@ AllRadialOnce == s.op = "residualGive" =>
                    /\ \A k1 \in 0..(NumRad - 1), k2 \in 0..(NumRad - 1) : k1 # k2 => RadLines(k1) \cap RadLines(k2) = {}
 AllCirclesOnce == s.op \in {"smootherTake", "xsmootherTake"} =>
                    Pass(StartBlack, s.nc, 2) \cup Pass(StartWhite, s.nc, 2) = 0..(s.nc - 1) /\ (s.nc - 1) \in Pass(StartBlack, s.nc, 2)
+
+\* the give smoothers solve every circle line and every radial line exactly once per sweep (loops 4, 11 and 12, 16 of the 16)
+GiveSolvesOnce == (s.op \in {"smootherGive", "xsmootherGive"} /\ Region # <<>>) =>
+                   LET g == SmootherGiveRegion
+                       ids(l) == {t.id : t \in g[l].tasks}
+                   IN /\ ids(4) \cup ids(11) = 0..(s.nc - 1) /\ ids(4) \cap ids(11) = {}
+                      /\ ids(12) \cup ids(16) = 0..(s.nt - 1) /\ ids(12) \cap ids(16) = {}
+                      /\ (s.op = "xsmootherGive" => {t.id : t \in Region[1].tasks} = 0..(s.nc - 1) /\ {t.id : t \in Region[2].tasks} = 0..(s.nt - 1))
 
 \* the shapes: the box NrSet x NtSet x 2..9 circles x boundary mode, or exactly the shapes listed in the file IOEnv.ZSHAPES
 ShapeList == IF "ZSHAPES" \in DOMAIN IOEnv THEN ndJsonDeserialize(IOEnv.ZSHAPES) ELSE <<>>
